@@ -108,9 +108,10 @@ EnterRun(s, t, f) == Emit(Push(s, t, RunFrame(f, 0)), "FuRunEnter", f, 0)
 
 \* a shared_ptr owner of combinator block c goes away; the last one destroys the block: the input
 \* copies it still holds (when_all's vector unless moved into the result, when_any's always) are released
-DropOwner(s, t, c) ==
-  LET s1 == [s EXCEPT !.C[c].own = @ - 1] IN
+DropOwners(s, t, c, k) ==
+  LET s1 == [s EXCEPT !.C[c].own = @ - k] IN
   IF s1.C[c].own = 0 /\ ~s1.C[c].moved
   THEN Push(s1, t, Fr("dvec", "_dv", c, 0, 0, 0, M[c].ins))
   ELSE s1
+DropOwner(s, t, c) == DropOwners(s, t, c, 1)
 =============================================================================
